@@ -9,6 +9,7 @@ Import ListNotations.
 (* rounding allowances *)
 Definition eps12 : Q := 1 # 1000000000000.
 Definition eps9 : Q := 1 # 1000000000.
+Definition eps14 : Q := 1 # 100000000000000.
 
 (* ---- Reverse, on bit patterns (payload compared bit for bit) ---- *)
 Definition veqbN (a b : vtx N) : bool :=
@@ -52,7 +53,8 @@ Definition snap_judge (dp : Z) (xb yb ynegb yyb : N) : option snap_verdict :=
       let td := tie_dist s in
       let scale := if Qle_bool 1 (Qabs s) then Qabs s else 1 in
       let exact_tie := Qeq_bool td 0 in
-      let near := Qle_bool td (eps9 * scale) && negb exact_tie in
+      (* the float product/quotient x*10^dp carries a relative error of a few 2^-53 *)
+      let near := Qle_bool td (eps14 * scale) && negb exact_tie in
       (* an exact tie is decided by the model only when the scaled value is computed exactly by the
          implementation: 10^|dp| is a binary64 value for |dp| <= 22 and the quotient k + 1/2 is one when small *)
       let tie_undecided := exact_tie && negb (Z.leb (Z.abs dp) 22 && Qle_bool (Qabs s) two40) in
@@ -194,32 +196,35 @@ Definition dens_judge (g : geomT N) (db : N) (out : option (geomT N)) : option d
    the threshold test, or the choice of the farthest vertex *)
 Section Robust.
   Variable t : Q.
-  Variable delta : Q.
-  Fixpoint scan_amb (a b : qv) (mids : list qv) (best : Q) : bool :=
-    (* some candidate other than a clear winner comes within delta of the maximum *)
+  Variable delta : Q.   (* relative rounding allowance *)
+  Variable noise : Q.   (* absolute rounding allowance: a few ulps of the ordinates' magnitude *)
+  (* a distance whose square is d2v is within the allowances of the distance r >= 0 *)
+  Definition near_dist (d2v r : Q) : bool :=
+    let eta := delta * r + noise in
+    Qle_bool d2v ((r + eta) * (r + eta)) && (Qle_bool r eta || Qle_bool ((r - eta) * (r - eta)) d2v).
+  (* some candidate other than the winner comes within rounding of the maximum *)
+  Fixpoint scan_amb (a b : qv) (mids : list qv) (best sb : Q) (seen_winner : bool) : bool :=
     match mids with
     | [] => false
     | p :: r =>
         let d := pd2 a b p in
-        (negb (Qeq_bool best 0) && negb (Qeq_bool d best) && Qle_bool (best * (1 - delta)) d && Qle_bool d (best * (1 + delta)))
-        || scan_amb a b r best
+        if Qeq_bool d best && negb seen_winner then scan_amb a b r best sb true
+        else near_dist d sb || scan_amb a b r best sb seen_winner
     end.
-  Definition count_eq (a b : qv) (mids : list qv) (best : Q) : nat :=
-    length (filter (fun p => Qeq_bool (pd2 a b p) best) mids).
+  (* the threshold test maxDist <= t is within rounding of flipping *)
   Definition thr_amb (best : Q) (mids : list qv) : bool :=
-    let tt := t * t in
-    if Qeq_bool tt 0 then
-      (* threshold 0: exact zero distances need not be zero in floating point *)
-      Qeq_bool best 0 && match mids with [] => false | _ => true end
-    else negb (Qeq_bool best 0) && Qle_bool (tt * (1 - delta)) best && Qle_bool best (tt * (1 + delta)).
+    match mids with
+    | [] => false
+    | _ => near_dist best (if Qle_bool 0 t then t else 0)
+    end.
   Fixpoint inner_amb (fuel : nat) (a : qv) (mids : list qv) (b : qv) (after : list qv) : bool * option (qv * list qv) :=
     match fuel with
     | O => (true, None)
     | S f =>
         match scan_max a b [] mids 0 None with
         | (best, bi) =>
-            let amb := thr_amb best mids || scan_amb a b mids best
-                       || (negb (Qeq_bool best 0) && Nat.ltb 1 (count_eq a b mids best)) in
+            let amb := thr_amb best mids
+                       || (negb (Qeq_bool best 0) && scan_amb a b mids best (qsqrt best) false) in
             if thr_ok t best then (amb, Some (b, after))
             else match bi with
                  | None => (amb, Some (b, after))
@@ -248,20 +253,96 @@ Section Robust.
     end.
 End Robust.
 
-(* every observed line is an RDP-simplification (for the relaxed threshold) of some input line, in order *)
-Fixpoint simp_lines_b (t : Q) (ins outs : list (lineT Q)) : bool :=
-  match outs with
-  | [] => true
-  | o :: outs' =>
-      match ins with
-      | [] => false
-      | i :: ins' =>
-          (ct_eqb (line_ct i) (line_ct o)
-           && (match line_vs o with [] => true | _ => rdp_rel_b t (line_vs i) (line_vs o) end)
-           && simp_lines_b t ins' outs')
-          || simp_lines_b t ins' outs
-      end
-  end.
+(* ---- the Simplify contract on an observed (NoValidate) output, by structure ----
+   a line: the output is an RDP-simplification of the input for the (relaxed) threshold, or it is
+   empty and the collapse is justified: the input is empty, or some admissible simplification of it
+   fails LineString validation (closed, and everything within t of the start point);
+   a ring: kept with at least 4 points, or dropped and some admissible simplification has at most 3;
+   members that became empty are omitted from Multi* results; collections keep their members. *)
+Section SimpSpec.
+  Variable t : Q.
+  Definition last_or (a : qv) (l : list qv) : qv := last l a.
+  Definition line_collapse_ok (vs : list qv) : bool :=
+    match vs with
+    | [] => true
+    | [a] => true
+    | a :: r => xy_eqb a (last_or a r) && rdp_rel_b t vs [a; last_or a r]
+    end.
+  Definition ring_collapse_ok (vs : list qv) : bool :=
+    match vs with
+    | [] => true
+    | [a] => true
+    | a :: r =>
+        let z := last_or a r in
+        rdp_rel_b t vs [a; z] || existsb (fun x => rdp_rel_b t vs [a; x; z]) (removelast r)
+    end.
+  Definition line_spec (i o : lineT Q) : bool :=
+    ct_eqb (line_ct i) (line_ct o) &&
+    match line_vs o with
+    | [] => line_collapse_ok (line_vs i)
+    | ovs => rdp_rel_b t (line_vs i) ovs
+    end.
+  Definition ring_kept (i o : lineT Q) : bool :=
+    ct_eqb (line_ct i) (line_ct o) && Nat.leb 4 (length (line_vs o)) && rdp_rel_b t (line_vs i) (line_vs o).
+  (* interior rings: each is kept as the next output ring, or dropped with justification *)
+  Fixpoint holes_spec (ins outs : list (lineT Q)) : bool :=
+    match ins with
+    | [] => match outs with [] => true | _ => false end
+    | i :: ins' =>
+        match outs with
+        | o :: outs' => (ring_kept i o && holes_spec ins' outs') || (ring_collapse_ok (line_vs i) && holes_spec ins' outs)
+        | [] => ring_collapse_ok (line_vs i) && holes_spec ins' []
+        end
+    end.
+  Definition poly_spec (p q : polyT Q) : bool :=
+    ct_eqb (poly_ct p) (poly_ct q) &&
+    match poly_rings p, poly_rings q with
+    | [], [] => true
+    | e :: _, [] => ring_collapse_ok (line_vs e)          (* exterior collapsed: the empty polygon *)
+    | e :: hs, e' :: hs' => ring_kept e e' && holes_spec hs hs'
+    | [], _ :: _ => false
+    end.
+  (* members of a Multi*: kept as the next output member, or omitted because they became empty *)
+  Fixpoint mline_spec (ins outs : list (lineT Q)) : bool :=
+    match ins with
+    | [] => match outs with [] => true | _ => false end
+    | i :: ins' =>
+        match outs with
+        | o :: outs' => (negb (line_empty o) && line_spec i o && mline_spec ins' outs')
+                        || (line_collapse_ok (line_vs i) && mline_spec ins' outs)
+        | [] => line_collapse_ok (line_vs i) && mline_spec ins' []
+        end
+    end.
+  Definition poly_vanishes (p : polyT Q) : bool :=
+    match poly_rings p with [] => true | e :: _ => ring_collapse_ok (line_vs e) end.
+  Fixpoint mpoly_spec (ins outs : list (polyT Q)) : bool :=
+    match ins with
+    | [] => match outs with [] => true | _ => false end
+    | i :: ins' =>
+        match outs with
+        | o :: outs' => (negb (poly_empty o) && poly_spec i o && mpoly_spec ins' outs')
+                        || (poly_vanishes i && mpoly_spec ins' outs)
+        | [] => poly_vanishes i && mpoly_spec ins' []
+        end
+    end.
+  Fixpoint simp_spec (g o : geomT Q) : bool :=
+    match g, o with
+    | GPoint p, GPoint q => pointQ_eqb p q
+    | GMPoint c ps, GMPoint d qs => ct_eqb c d && list_eqb pointQ_eqb ps qs
+    | GLine l, GLine k => line_spec l k
+    | GPoly p, GPoly q => poly_spec p q
+    | GMLine c ls, GMLine d ks => ct_eqb c d && mline_spec ls ks
+    | GMPoly c ps, GMPoly d qs => ct_eqb c d && mpoly_spec ps qs
+    | GColl c gs, GColl d os =>
+        ct_eqb c d && (fix go (l1 l2 : list (geomT Q)) : bool :=
+                         match l1, l2 with
+                         | [], [] => true
+                         | x :: r, y :: s => simp_spec x y && go r s
+                         | _, _ => false
+                         end) gs os
+    | _, _ => false
+    end.
+End SimpSpec.
 
 Record simp_verdict := {
   mv_spec : bool;          (* observed (NoValidate) lines are subsequences with end points kept, dropped vertices within t *)
@@ -276,9 +357,9 @@ Definition simp_judge (g : geomT N) (tb : N) (out : geomT N) : option simp_verdi
   match geom_to_Q g, f64_to_Q tb, geom_to_Q out with
   | Some gq, Some t, Some oq =>
       let trel := t * (1 + eps9) + eps9 in
-      Some {| mv_spec := simp_lines_b trel (geom_lines gq) (geom_lines oq);
+      Some {| mv_spec := simp_spec trel gq oq;
               mv_ct := ct_eqb (geom_ct gq) (geom_ct oq) && gtype_eqb (geom_type gq) (geom_type oq);
-              mv_ambiguous := existsb (fun l => rdp_ambiguous t eps9 (line_vs l)) (geom_lines gq);
+              mv_ambiguous := existsb (fun l => rdp_ambiguous t eps9 (eps12 * vs_scale (line_vs l)) (line_vs l)) (geom_lines gq);
               mv_model := match simplify_geom t no_gate_p no_gate_m false gq with
                           | Ok mq => geomQ_eqb mq oq
                           | _ => false
